@@ -99,6 +99,8 @@ def mkExample (j : Json) : Doc :=
 def mapKids (j : Json) (k pos : String) (f : String → Json → Doc) : List (String × Doc) :=
   match field? j k with | some m => (objKVs m).map (fun kv => (pos, f kv.1 kv.2)) | none => []
 
+def contentCount (j : Json) : Nat := match field? j "content" with | some c => (objKVs c).length | none => 0
+
 mutual
 partial def mkMediaType (env : Env) (key : String) (j : Json) : Doc :=
   .node .mediaType
@@ -107,14 +109,12 @@ partial def mkMediaType (env : Env) (key : String) (j : Json) : Doc :=
       vals := valAttrs j ["example"], exts := unknownKeys j ["schema", "example", "examples", "encoding"] }
     ((match field? j "schema" with | some s => [("schema", mkRef env .schemaRef (mkSchema env) "" s)] | none => []) ++
      mapKids j "examples" "examples" (fun k x => mkRef env .exampleRef mkExample k x) ++
-     mapKids j "encoding" "encoding" (fun k x => leaf .encoding x ["contentType", "headers", "style", "explode", "allowReserved"] [] k))
+     mapKids j "encoding" "encoding" (fun k x =>
+       .node .encoding { strs := withKey k [], exts := unknownKeys x ["contentType", "headers", "style", "explode", "allowReserved"] }
+         (mapKids x "headers" "headers" (fun hk h => mkRef env .headerRef (mkParamLike env .header) hk h))))
 partial def mkContent (env : Env) (j : Json) : Doc :=
   .node .content {} ((objKVs j).map (fun kv => ("mediaTypes", mkMediaType env kv.1 kv.2)))
-end
-
-def contentCount (j : Json) : Nat := match field? j "content" with | some c => (objKVs c).length | none => 0
-
-def mkParamLike (env : Env) (k : Kind) (j : Json) : Doc :=
+partial def mkParamLike (env : Env) (k : Kind) (j : Json) : Doc :=
   let explode := match j.getObjVal? "explode" with | .ok (.bool b) => [("explode", if b then "true" else "false")] | _ => []
   .node k
     { strs := strAttrs j ["name", "in", "style"] ++ explode,
@@ -124,6 +124,7 @@ def mkParamLike (env : Env) (k : Kind) (j : Json) : Doc :=
     ((match field? j "schema" with | some s => [("schema", mkRef env .schemaRef (mkSchema env) "" s)] | none => []) ++
      (match field? j "content" with | some c => [("content", mkContent env c)] | none => []) ++
      mapKids j "examples" "examples" (fun k x => mkRef env .exampleRef mkExample k x))
+end
 
 def mkParameters (env : Env) (j : Json) : Doc :=
   .node .parameters {} ((asArr j).map (fun p => ("items", mkRef env .parameterRef (mkParamLike env .parameter) "" p)))
@@ -239,7 +240,8 @@ def handle (j : Json) : Json :=
     (if nodes.any excl7Node then ["ExclTemplateNames"] else []) ++
     (if nodes.any (fun n => exclHeaderNode o n || exclBelow knownUncovered o n) then ["ExclExtraFieldsUnchecked"] else []) ++
     (if nodes.any (exclInnerNode o) then ["ExclInnerRefSiblings"] else []) ++
-    (if nodes.any (exclExternalNode o) then ["ExclExternalExample"] else [])
+    (if nodes.any (exclExternalNode o) then ["ExclExternalExample"] else []) ++
+    (if nodes.any (exclHeaderExampleNode o) then ["ExclHeaderExample"] else [])
   let viols := nodes.flatMap (fun n => (violations n).map (fun v =>
     s!"{v.rule}@{kindName n.kind}" ++ (if enabled o v then "" else ":off")))
   let branches := dedup (viols ++
